@@ -52,15 +52,44 @@ def tree_hash():
     return h.hexdigest()[:16]
 
 
+import contextlib, fcntl
+
+
+@contextlib.contextmanager
+def locked(path):
+    """serialises the processes that would produce the same cached artefact (checks may run side by side)"""
+    os.makedirs(os.path.dirname(path), exist_ok=True)
+    with open(path + ".lock", "w") as fh:
+        fcntl.flock(fh, fcntl.LOCK_EX)
+        try:
+            yield
+        finally:
+            fcntl.flock(fh, fcntl.LOCK_UN)
+
+
+def prune(pattern, keep, min_age_s=2 * 3600):
+    """removes cached artefacts of other trees: only ones that have not been touched for a while (another check may be using them)"""
+    olds = sorted((p for p in glob.glob(pattern) if not p.endswith(".lock")), key=os.path.getmtime)
+    now = time.time()
+    for old in olds[:-keep] if keep else olds:
+        if now - os.path.getmtime(old) > min_age_s:
+            shutil.rmtree(old, ignore_errors=True)
+            if os.path.exists(old + ".lock"):
+                os.remove(old + ".lock")
+
+
 def build_harness(th, race=False):
+    with locked(os.path.join(WORK, "bin", th)):
+        return _build_harness(th, race)
+
+
+def _build_harness(th, race=False):
     out = os.path.join(WORK, "bin", th, "harness-race.test" if race else "harness.test")
     if os.path.exists(out):
         return out
     os.makedirs(os.path.dirname(out), exist_ok=True)
     # keep only the newest few builds
-    bins = sorted(glob.glob(os.path.join(WORK, "bin", "*")), key=os.path.getmtime)
-    for old in bins[:-4]:
-        shutil.rmtree(old, ignore_errors=True)
+    prune(os.path.join(WORK, "bin", "*"), keep=6)
     cmd = ["go", "test", "-tags", "verif", "-c", "-o", out]
     if REPO == "/repo":
         shutil.copy(os.path.join(REPO, "go.sum"), os.path.join(HARN, "go.sum"))
@@ -236,14 +265,18 @@ def load_known():
 def corpus(th, family, tier, seed):
     """Generates (or reuses) the scenarios, traces and monitor verdicts of one family."""
     d = os.path.join(WORK, "corpus", th, "%s-%s-%d" % (family, tier, seed))
+    with locked(d):
+        return _corpus(th, family, tier, seed, d)
+
+
+def _corpus(th, family, tier, seed, d):
     meta_p = os.path.join(d, "meta.json")
     if os.path.exists(meta_p):
+        os.utime(os.path.join(WORK, "corpus", th))
         return d, json.load(open(meta_p))
     os.makedirs(d, exist_ok=True)
-    # drop corpora of other trees
-    for old in glob.glob(os.path.join(WORK, "corpus", "*")):
-        if os.path.basename(old) != th:
-            shutil.rmtree(old, ignore_errors=True)
+    # drop corpora of other trees (old ones only: checks of other trees may be running side by side)
+    prune(os.path.join(WORK, "corpus", "*"), keep=3)
     t0 = time.time()
     scns = gen.generate(family, tier, seed)
     scn_p = os.path.join(d, "scn.ndjson")
